@@ -14,6 +14,18 @@ CFG_FORMS = ["absolute", "relative", "bare", "via_symlink"]
 CWDS = ["config_dir", "parent", "unrelated"]
 
 
+NON_UTF8_NAMES = [os.fsdecode(b"caf\xe9.rs"), os.fsdecode(b"dir-\xff/inner.rs"), os.fsdecode(b"sub/latin1-\xe4\xf6\xfc.rs"),
+                  os.fsdecode(b"ok-name.r\xe9s")]
+
+
+def is_utf8_name(p):
+    try:
+        p.encode("utf-8")
+        return True
+    except UnicodeEncodeError:
+        return False
+
+
 def ext_of(name):
     base = os.path.basename(name)
     if "." not in base[1:]:          # no extension, or only a leading dot
@@ -44,6 +56,8 @@ def build_layout(box, rnd, srcrel):
     # permission bits are not part of the scope rule
     modes = {"ro444.rs": 0o444, "ro400.rs": 0o400, "exec755.rs": 0o755, "rodir/inner_of_readonly_dir.rs": 0o444, "ro_notes.txt": 0o444}
     names += list(modes)
+    # names that are not valid UTF-8 (a Latin-1 file name on a UTF-8 system): regular files below the source directory all the same
+    names += NON_UTF8_NAMES
     for n in names:
         box.write(os.path.join(srcrel, n), STMT)
     for n, m in modes.items():
@@ -81,6 +95,39 @@ def work(job):
         build_layout.exts = exts
         src, names = build_layout(box, rnd, srcrel)
         os.makedirs(os.path.join(box.proj, "a"), exist_ok=True)
+        wrap = None
+        mnt_ext = None
+        if i % 6 == 1:
+            # a mount point inside the source tree: a directory of another file system (other st_dev) bind-mounted below
+            # source_dir in a private mount namespace. Check mode only - replacing a file there from a TMPDIR on this file
+            # system is a genuine cross-device rename, which is C08's subject.
+            import shutil
+            mnt_ext = "/var/tmp/vf-mnt-%d-%d-%d" % (os.getpid(), seed, i)
+            shutil.rmtree(mnt_ext, ignore_errors=True)
+            for rel in ("gen.rs", "pkg/deeper/mod.rs", "notes.txt"):
+                os.makedirs(os.path.dirname(os.path.join(mnt_ext, rel)), exist_ok=True)
+                with open(os.path.join(mnt_ext, rel), "wb") as f:
+                    f.write(STMT)
+            os.makedirs(os.path.join(src, "mnt"))
+            names += ["mnt/gen.rs", "mnt/pkg/deeper/mod.rs", "mnt/notes.txt"]
+            wrap = ["unshare", "-m", "sh", "-c", 'mount --bind "$1" "$2" || exit 97; shift 2; exec "$@"', "sh", mnt_ext, os.path.join(src, "mnt")]
+            mode = "check"
+        special = []
+        if i % 6 == 3:
+            # entries that are not regular files but carry a configured extension: a named pipe (nobody writes to it: opening it
+            # for reading would block for ever) and a Unix socket
+            import socket as _socket
+            fifo = os.path.join(src, "events_pipe." + exts[0])
+            os.mkfifo(fifo)
+            sk = _socket.socket(_socket.AF_UNIX)
+            sockp = os.path.join(src, "ctl_socket." + exts[0])
+            try:
+                sk.bind(sockp)
+                special.append(sockp)
+            except OSError:
+                pass
+            sk.close()
+            special.append(fifo)
         if sform == "symlink_dotdot":
             # `lnk` is a symlink to a directory elsewhere: the operating system resolves lnk/.. to the parent of the link's
             # *target* (proj/realhome), not to the directory that holds the link; a src/ next to the link is a trap
@@ -121,8 +168,16 @@ def work(job):
                 cwdk = "config_dir"
             carg = "Breadlog.yaml"
         before = core.snapshot(box.root)
-        r = core.run_breadlog(built, box, cfgp, check=(mode == "check"), cwd=cwd, cfg_arg=carg, shim=True)
+        r = core.run_breadlog(built, box, cfgp, check=(mode == "check"), cwd=cwd, cfg_arg=carg, shim=True, wrap=wrap,
+                              timeout=25 if special else 120)
         after = core.snapshot(box.root)
+        if mnt_ext:
+            import shutil
+            shutil.rmtree(mnt_ext, ignore_errors=True)
+            if r.rc == 97 or "unshare" in r.err:
+                res["counters"]["mount_namespace_unavailable"] = 1
+                return res
+            res["counters"]["runs_with_a_mount_point_inside_source_dir"] = 1
         root = box.root
         proj = box.proj
 
@@ -132,6 +187,16 @@ def work(job):
             return os.path.relpath(os.path.join(os.path.realpath(os.path.dirname(p)), os.path.basename(p)), os.path.realpath(root))
         opened_list = [real_rel(o["path"]) for o in (r.shim or []) if o["kind"] in ("openr", "openw") and o["path"].startswith(root + "/")]
         reported_list = [real_rel(path) for path, line, col in r.missing()] if mode == "check" else []
+    special_opened = sorted(os.path.relpath(p_, root) for p_ in special
+                            if any(o["path"] == p_ and o["kind"] in ("openr", "openw") for o in (r.shim or [])))
+    if special_opened:
+        res["violations"].append({"signature": "C15.non-regular-file-opened|%s" % mode,
+                                  "detail": {"paths": special_opened, "ended": r.ended(), "timed_out": r.timed_out},
+                                  "case": {"seed": seed, "i": i}})
+        res["nontrivial"].append("%s|%s|%s|%s|%s|special" % ("+".join(exts), sform, cform, cwdk, mode))
+        return res
+    if special:
+        res["counters"]["runs_with_pipe_and_socket_named_like_sources"] = 1
     if r.panicked() or r.timed_out:
         res["inconclusive"]["run-crashed (C17's business)"] = 1
         return res
@@ -140,6 +205,10 @@ def work(job):
     for n in names:
         if ext_of(n) in exts:
             scope.add(os.path.normpath(os.path.join("proj", srcrel, n)))
+    # in-scope files whose path is not valid UTF-8 are judged by a clause of their own (one signature per mode, independent of
+    # the product coordinates), so that a defect confined to them cannot hide - or hide behind - anything else
+    scope_nu = {p for p in scope if not is_utf8_name(p)}
+    scope -= scope_nu
     diff = core.snap_diff(before, after, meta=False)
     v = []
     changed = {p for p, _ in diff}
@@ -147,7 +216,7 @@ def work(job):
     for p, what in diff:
         if p == lock_rel and mode == "edit":
             continue
-        if p in scope and what == "content" and mode == "edit":
+        if (p in scope or p in scope_nu) and what == "content" and mode == "edit":
             continue
         kind = "created" if what == "created" else "modified"
         where = "lock-in-wrong-place" if p.endswith("Breadlog.lock") else ("out-of-scope-path-" + kind)
@@ -156,7 +225,7 @@ def work(job):
     # the config file, the lock next to it (and its scratch name while it is being replaced) and TMPDIR are legitimately opened
     # (a scratch file the run creates itself - wherever it chooses to put it - did not exist before and is not "a file that was read";
     #  whether scratch files are cleaned up is C08's business, whether anything persists is covered by the snapshot diff above)
-    read_out_of_scope = sorted(p for p in opened if p not in scope and p in before and before[p][0] == "f"
+    read_out_of_scope = sorted(p for p in opened if p not in scope and p not in scope_nu and p in before and before[p][0] == "f"
                                and p not in ("proj/Breadlog.yaml", "proj/Breadlog.lock", "proj/cfgstore/shared/real-config.yaml"))
     if read_out_of_scope:
         v.append(("out-of-scope-file-read", {"paths": read_out_of_scope[:4]}))
@@ -182,14 +251,74 @@ def work(job):
     else:
         if r.rc == 0:
             v.append(("no-in-scope-files-but-exit-0", {}))
+    nu_special = []
+    if scope_nu and r.rc is not None:
+        # check mode cannot name such a file faithfully on stdout; what can be observed is whether it was opened for reading (shim)
+        # and, in edit mode, whether it received its reference
+        ignored = sorted(p for p in scope_nu if p not in opened)
+        unedited = sorted(p for p in scope_nu if mode == "edit" and p not in changed)
+        if ignored or unedited:
+            nu_special.append(("in-scope-file-with-non-UTF-8-name-ignored", {"never_opened": ignored, "not_edited": unedited}))
+        for p in scope_nu & changed:
+            t = decompose(before[p][6], after[p][6])
+            if t is None or len(t) != 1:
+                nu_special.append(("in-scope-file-with-non-UTF-8-name-not-edited-correctly", {"path": p}))
+        res["counters"]["in_scope_files_with_non_utf8_names"] = len(scope_nu)
     res["nontrivial"].append("%s|%s|%s|%s|%s" % ("+".join(exts), sform, cform, cwdk, mode))
     res["counters"].update({"in_scope_files": len(scope), "paths_in_layout": len(before), "files_opened_observed": len(opened)})
     for clause, detail in v:
         res["violations"].append({"signature": "C15.%s|ext=%s|src=%s|cfg=%s|cwd=%s|%s" % (clause, "+".join(exts), sform, cform, cwdk, mode),
                                   "detail": dict(detail, exit=r.ended(), argv=r.argv[1:], cwd=cwd), "case": {"seed": seed, "i": i}})
+    for clause, detail in nu_special:
+        res["violations"].append({"signature": "C15.%s|%s" % (clause, mode), "detail": dict(detail, exit=r.ended(), extensions=exts),
+                                  "case": {"seed": seed, "i": i}})
     if i < 2:
         res["samples"].append({"extensions": exts, "source_dir": sd, "config_arg": carg, "cwd": os.path.relpath(cwd, root), "mode": mode,
                                "in_scope": sorted(scope), "changed": sorted(changed), "opened": sorted(opened)[:12]})
+    return res
+
+
+def missing_src_work(job):
+    """The configured source directory does not exist next to the configuration file, but a directory of that name exists where the
+    command is run (and one level up): nothing there is in scope, so nothing may be read, reported or changed."""
+    built, seed, i = job
+    rnd = core.rng_for("c15miss", seed, i)
+    res = {"evaluations": 1, "nontrivial": [], "violations": [], "samples": [], "inconclusive": {}, "counters": {}}
+    mode = "check" if i % 2 else "edit"
+    sd = rnd.choice(["src", "./src", "code/src", "src/"])
+    with core.Box(tag="c15m") as box:
+        cfgdir = os.path.join(box.proj, rnd.choice(["ci", "tools/logging", "config"]))
+        os.makedirs(cfgdir)
+        cfgp = os.path.join(cfgdir, "Breadlog.yaml")
+        with open(cfgp, "w") as f:
+            f.write(core.make_config(source_dir=sd))
+        for base in (box.proj, box.root):
+            p_ = os.path.join(base, sd.rstrip("/"), "lib.rs")
+            os.makedirs(os.path.dirname(p_), exist_ok=True)
+            with open(p_, "wb") as f:
+                f.write(STMT)
+        cwd = rnd.choice([box.proj, box.root])
+        carg = rnd.choice([cfgp, os.path.relpath(cfgp, cwd)])
+        before = core.snapshot(box.root)
+        r = core.run_breadlog(built, box, cfgp, check=(mode == "check"), cwd=cwd, cfg_arg=carg, shim=True)
+        after = core.snapshot(box.root)
+        opened = sorted(os.path.relpath(o["path"], box.root) for o in (r.shim or []) if o["kind"] in ("openr", "openw") and o["path"].endswith(".rs"))
+    if r.panicked() or r.timed_out:
+        res["inconclusive"]["run-crashed (C17's business)"] = 1
+        return res
+    res["nontrivial"].append("missing-source-dir|%s|%s" % (sd, mode))
+    res["counters"]["missing_source_dir_with_lookalike_in_cwd"] = 1
+    diff = core.snap_diff(before, after, meta=False)
+    v = []
+    if diff:
+        v.append(("out-of-scope-path-modified", {"diff": diff[:4]}))
+    if opened:
+        v.append(("out-of-scope-file-read", {"paths": opened[:4]}))
+    if r.missing():
+        v.append(("out-of-scope-file-reported", {"paths": [m[0] for m in r.missing()][:4]}))
+    for clause, detail in v:
+        res["violations"].append({"signature": "C15.%s|source-dir-missing-next-to-config|%s" % (clause, mode),
+                                  "detail": dict(detail, exit=r.ended(), argv=r.argv[1:], cwd=cwd), "case": {"missing_src": [seed, i]}})
     return res
 
 
@@ -201,6 +330,8 @@ def main(tier):
     full = len(EXT_LISTS) * len(SRC_FORMS) * len(CFG_FORMS) * len(CWDS)
     n = full * 5 if tier == "quick" else full * 60
     for res in frame.pmap(work, [(built, ck.seed, i) for i in range(n)], chunksize=4):
+        ck.absorb(res)
+    for res in frame.pmap(missing_src_work, [(built, ck.seed, i) for i in range(40 if tier == "quick" else 400)], chunksize=4):
         ck.absorb(res)
     ck.extra["product"] = {"extension_lists": EXT_LISTS, "source_dir_forms": SRC_FORMS, "config_path_forms": CFG_FORMS, "cwds": CWDS}
     ck.exhaustive = True
@@ -218,6 +349,8 @@ def replay_witness(w, ck=None, built=None):
     built = built or (ck.built if ck else None) or core.build_repo()
     core.build_shim()
     c = w["case"] if "case" in w else w["first"]["case"]
+    if "missing_src" in c:
+        return bool(missing_src_work((built, c["missing_src"][0], c["missing_src"][1]))["violations"])
     r = work((built, c["seed"], c["i"]))
     return bool(r["violations"])
 
